@@ -9,6 +9,12 @@ makes, additional key `None`), calls `Machine.transition(index, event.time)` and
 The same operations go to `Driver/C17.lean` (exact integers: weights over 16, draws over 2^53); compared are the
 outcome class, the new state of every simulant, every other column, and the per-simulant entry path.
 
+Inputs are not normalised (notes/LESSONS.md): probability functions return float / named / DataFrame-cut / integer Series, ndarray,
+list, tuple, the default, re-ordered Series; they are functions, callable objects, partials, bound methods; the machine is built
+through every API form; half of the scenes contain untracked simulants; the index is explicit labels, event.index or a RangeIndex;
+the listener runs in any of the four step phases; Machine.cleanup is observed (cleanup_effect exactly once per tracked member);
+a second machine may share the table.
+
 A second, EXACT stream ("kind": "rows") calls the real `TransitionSet._normalize_probabilities` and
 `randomness.stream._choice` directly on dyadic weight matrices whose normalisation is exact in IEEE arithmetic, with
 draws placed exactly ON, one ulp-of-the-grid below and above every cumulative bin edge and at 0.0 (stream draws never
@@ -23,9 +29,11 @@ in a permuted index and in any other company; un-normalisable weights are reject
 """
 from __future__ import annotations
 
+import json
+import os
 import random
 
-from .. import impl
+from .. import impl, paths
 from ..runner import Prop
 
 WD = 16
@@ -46,7 +54,8 @@ class Spec:
         self.trans = case["trans"]
         self.by_from = {s: [] for s in range(self.ns)}
         self.pos = {}
-        for tid, (a, b, trig, ps) in enumerate(self.trans):
+        for tid, t in enumerate(self.trans):
+            a = t[0]
             self.pos[tid] = len(self.by_from[a])
             self.by_from[a].append(tid)
         self.self_ok = [bool(s[1]) for s in self.states]
@@ -129,51 +138,191 @@ class Spec:
         return res
 
 
+def as_list(case, idx):
+    """the labels a call is about ("event" = the index of the emitted event = every simulant, tracked or not)"""
+    return list(range(case["n"])) if idx == "event" else list(idx)
+
+
 def sname(case, k):
     return case["states"][k][0] if k < len(case["states"]) else "outside"
 
 
+# ------------------------------------------------------------------------------------------ finding classes
+# Finding F30 (found by this check's lessons audit, repaired in /repo by 7d0385f3, status "fixed" in known_findings.json with
+# `signatures_when_reverted`): two input classes on which `choose_new_state` used to break the property. They are generated on
+# every run and compared like everything else (the model: labelled Series aligned by label, unlabelled containers positional,
+# integer dtype fine); every oracle failure of a call that meets such a transition set is reported under the finding's signature,
+# so the reverted fix (mutants/C17/break-F30-reverted.patch) is caught with exactly these. (Should an entry ever be set back to
+# "open", the oracle failure prints as KNOWN-FINDING and the model is not consulted for these cases; no entry at all: not generated.)
+SIG_ORDER = "probability-series-order-ignored"     # non-triggered transition: the Series a probability function returns is
+#                                                    consumed positionally (np.array(...)), whatever its index says
+SIG_INT = "probability-int-dtype-crash"            # every transition of a set non-triggered and integer dtype: the in-place
+#                                                    `/=` of _normalize_probabilities raises UFuncTypeError
+PERM_KINDS = ("series_rev", "series_sorted")
+SAFE_KINDS = ("series", "ndarray", "list", "tuple", "framecol", "series_named")
+
+
+def finding_status(sig):
+    if os.environ.get("C17_FORCE_FINDING_CLASSES"):
+        return os.environ["C17_FORCE_FINDING_CLASSES"]
+    try:
+        for k in json.loads((paths.VERIF / "known_findings.json").read_text())["findings"]:
+            if k.get("signature") == sig or sig in k.get("signatures", []) or sig in k.get("signatures_when_reverted", []):
+                return k.get("status", "open")
+    except Exception:  # noqa: BLE001
+        pass
+    return None
+
+
+def tkind(t):
+    return t[4] if len(t) > 4 else "series"
+
+
+def risky_sets(case):
+    """(states whose transition set holds a non-triggered transition returning a re-ordered Series,
+        states whose transition set is all non-triggered integer dtype)"""
+    spec = Spec(case)
+    perm = {a for a in range(spec.ns) if any(spec.trans[t][2] == NOT and tkind(spec.trans[t]) in PERM_KINDS for t in spec.by_from[a])}
+    ints = {a for a in range(spec.ns) if spec.by_from[a]
+            and all(spec.trans[t][2] == NOT and tkind(spec.trans[t]) == "series_int" for t in spec.by_from[a])}
+    return perm, ints
+
+
 # ------------------------------------------------------------------------------------------ implementation
+PHASES = {"time_step__prepare": "on_time_step_prepare", "time_step": "on_time_step",
+          "time_step__cleanup": "on_time_step_cleanup", "collect_metrics": "on_collect_metrics"}
+
+
 def _run(case):
     impl.load()
+    import functools
+
     import numpy as np
     import pandas as pd
     from vivarium import Component
     from vivarium.framework.engine import SimulationContext
     from vivarium.framework.state_machine import Machine, State, Transition, TransientState, Trigger
 
-    spec = Spec(case)
     n = case["n"]
     names = [s[0] for s in case["states"]]
     code = {nm: k for k, nm in enumerate(names)}
-    LOG = []
+    build = case.get("build", {})
+    LOG, CLEAN = [], []
     out = {"error": None, "steps": []}
 
     class PState(State):
         def transition_side_effect(self, index, event_time):
             LOG.append([code[self.state_id], [int(i) for i in index]])
 
+        def cleanup_effect(self, index, event_time):
+            CLEAN.append([code[self.state_id], [int(i) for i in index]])
+
     class PTransient(TransientState):
         def transition_side_effect(self, index, event_time):
             LOG.append([code[self.state_id], [int(i) for i in index]])
 
-    def pfunc(ps):
-        def f(index):
-            return pd.Series([ps[int(i)] / WD for i in index], index=index, dtype=float)
-        return f
+        def cleanup_effect(self, index, event_time):
+            CLEAN.append([code[self.state_id], [int(i) for i in index]])
+
+    def values(ps, kind, index):
+        """the simulant's own probability, by LABEL, in every container / dtype a probability function may return"""
+        vals = [ps[int(i)] / WD for i in index]
+        if kind == "series":
+            return pd.Series(vals, index=index, dtype=float)
+        if kind == "series_named":
+            return pd.Series(vals, index=pd.Index(index, name="simulant"), dtype=float, name="probability")
+        if kind == "series_rev":                   # correctly labelled, rows in another order
+            return pd.Series(vals, index=index, dtype=float).iloc[::-1]
+        if kind == "series_sorted":
+            return pd.Series(vals, index=index, dtype=float).sort_index()
+        if kind == "series_int":                   # only used when every value is 0 or 1
+            if any(v not in (0.0, 1.0) for v in vals):
+                raise AssertionError("series_int for a probability that is not 0 or 1")
+            return pd.Series([int(v) for v in vals], index=index)
+        if kind == "ndarray":
+            return np.array(vals)
+        if kind == "list":
+            return list(vals)
+        if kind == "tuple":
+            return tuple(vals)
+        if kind == "framecol":
+            return pd.DataFrame({"zzz": 0.5, "p": vals}, index=index)["p"]
+        raise AssertionError(kind)
+
+    class PObj:
+        def __init__(self, ps, kind):
+            self.ps, self.kind = ps, kind
+
+        def __call__(self, index):
+            return values(self.ps, self.kind, index)
+
+        def method(self, index):
+            return values(self.ps, self.kind, index)
+
+    def pfunc(ps, kind, q):
+        how = ("function", "object", "partial", "method")[q % 4] if case.get("callables") else "function"
+        if how == "object":
+            return PObj(ps, kind)
+        if how == "partial":
+            return functools.partial(values, ps, kind)
+        if how == "method":
+            return PObj(ps, kind).method
+        return lambda index: values(ps, kind, index)
+
+    TRIG = {NOT: Trigger.NOT_TRIGGERED, INACTIVE: Trigger.START_INACTIVE, ACTIVE: Trigger.START_ACTIVE}
 
     class Probe(Component):
         def __init__(self):
             super().__init__()
-            self.states = [(PTransient if tr else PState)(nm, allow_self_transition=bool(so)) for nm, so, tr in case["states"]]
+            self.states = []
+            for nm, so, tr in case["states"]:
+                cls = PTransient if tr else PState
+                if build.get("self") == "method":
+                    st = cls(nm)
+                    if so:
+                        st.allow_self_transitions()
+                else:
+                    st = cls(nm, allow_self_transition=bool(so))
+                self.states.append(st)
+            how = build.get("machine", "ctor")
+            if how == "ctor":
+                self.machine = Machine("st", self.states)
+            elif how == "ctor_tuple":
+                self.machine = Machine("st", states=tuple(self.states))
+            elif how == "add_states":
+                self.machine = Machine("st")
+                self.machine.add_states(self.states)
+            else:                                   # states added in two batches, the second one after the transitions exist
+                self.machine = Machine("st", self.states[:1])
             self.trs = []
-            for a, b, trig, ps in case["trans"]:
-                t = Transition(self.states[a], self.states[b], probability_func=pfunc(ps),
-                               triggered={NOT: Trigger.NOT_TRIGGERED, INACTIVE: Trigger.START_INACTIVE, ACTIVE: Trigger.START_ACTIVE}[trig])
-                self.states[a].add_transition(t)
-                self.trs.append(t)
-            self.machine = Machine("st", self.states)
-            self._sub_components = [self.machine]
+            pending = {}
+            for q, t in enumerate(case["trans"]):
+                a, b, trig, ps = t[:4]
+                kw = {}
+                if tkind(t) != "default":
+                    kw["probability_func"] = pfunc(ps, tkind(t), q)
+                if trig != NOT or q % 2:
+                    kw["triggered"] = TRIG[trig]
+                tr = Transition(self.states[a], self.states[b], **kw)
+                self.trs.append(tr)
+                att = build.get("attach", "add_transition")
+                if att == "add_transition":
+                    self.states[a].add_transition(tr)
+                elif att == "append":
+                    self.states[a].transition_set.append(tr)
+                else:
+                    pending.setdefault(a, []).append(tr)
+            for a, lst in pending.items():
+                self.states[a].transition_set.extend(lst)
+            if how == "add_states_twice":
+                self.machine.add_states(iter(self.states[1:]))
+            subs = [self.machine]
+            if case.get("second"):
+                self.x, self.y = PState2("c17x"), PState2("c17y")
+                self.x.add_transition(Transition(self.x, self.y))
+                self.machine2 = Machine("st2", [self.x, self.y])
+                subs.append(self.machine2)
+            self._sub_components = subs
             self.k = 0
 
         @property
@@ -182,22 +331,37 @@ def _run(case):
 
         @property
         def columns_created(self):
-            return ["st", "other"]
+            return ["st", "other"] + (["st2"] if case.get("second") else [])
+
+        @property
+        def columns_required(self):
+            return ["tracked"]
 
         def on_initialize_simulants(self, d):
-            self.population_view.update(pd.DataFrame(
-                {"st": [names[0]] * len(d.index), "other": [7 * int(i) + 3 for i in d.index]}, index=d.index))
+            data = {"st": [names[0]] * len(d.index), "other": [7 * int(i) + 3 for i in d.index]}
+            if case.get("second"):
+                data["st2"] = ["c17x"] * len(d.index)
+            self.population_view.update(pd.DataFrame(data, index=d.index))
 
-        def snapshot(self, full):
-            pop = self.population_view.get(full, query="")
-            extra = sim.get_population()
-            return {"st": [code.get(v, len(names)) for v in pop["st"].tolist()],
+        def snapshot(self):
+            pop = sim.get_population(untracked=True)
+            snap = {"st": [code.get(v, len(names)) for v in pop["st"].tolist()],
                     "other": [int(v) for v in pop["other"].tolist()],
-                    "tracked": [bool(v) for v in extra["tracked"].tolist()],
+                    "tracked": [bool(v) for v in pop["tracked"].tolist()],
                     "labels": [int(v) for v in pop.index.tolist()],
-                    "columns": sorted(str(c) for c in extra.columns)}
+                    "columns": sorted(str(c) for c in pop.columns)}
+            if case.get("second"):
+                snap["st2"] = [str(v) for v in pop["st2"].tolist()]
+            return snap
 
-        def on_time_step(self, event):
+        def index_of(self, idx, event):
+            if idx == "event":
+                return event.index
+            if case.get("rangeindex") and idx and idx == list(range(idx[0], idx[-1] + 1)):
+                return pd.RangeIndex(idx[0], idx[-1] + 1)
+            return pd.Index(idx, dtype="int64")
+
+        def act(self, event):
             if self.k >= len(case["steps"]):
                 return
             scenes = case["steps"][self.k]
@@ -212,6 +376,8 @@ def _run(case):
                         rec["trig"].append("ok")
                     except Exception as e:  # noqa: BLE001
                         rec["trig"].append("err:" + type(e).__name__)
+                unt = set(sc.get("untracked", []))
+                self.population_view.update(pd.Series([i not in unt for i in range(n)], index=full, name="tracked"))
                 for st in self.states:
                     dr = st.transition_set.random.get_draw(full)
                     nums = [int(x * DD) for x in dr.tolist()]
@@ -219,28 +385,54 @@ def _run(case):
                         raise AssertionError("draw is not a multiple of 2^-53")
                     rec["draws"].append(nums)
                 for idx in sc["calls"]:
-                    self.population_view.update(pd.Series([sname(case, k) if k < len(names) else "outside" for k in sc["assign"]],
-                                                          index=full, name="st"))
-                    before = self.snapshot(full)
+                    self.population_view.update(pd.Series([sname(case, k) for k in sc["assign"]], index=full, name="st"))
+                    del CLEAN[:]
+                    try:                                            # cleanup hooks, on the table as configured
+                        self.machine.cleanup(self.index_of(idx, event), event.time)
+                        cout = "ok"
+                    except Exception as e:  # noqa: BLE001
+                        cout = "err:" + type(e).__name__
+                    clean = [[s, list(ix)] for s, ix in CLEAN]
+                    before = self.snapshot()
                     del LOG[:]
                     try:
-                        self.machine.transition(pd.Index(idx, dtype="int64"), event.time)
+                        self.machine.transition(self.index_of(idx, event), event.time)
                         outcome = "ok"
                     except RecursionError:
                         outcome = "err:RecursionError"
                     except Exception as e:  # noqa: BLE001
                         outcome = "err:" + type(e).__name__
-                    after = self.snapshot(full)
-                    rec["calls"].append({"out": outcome, "before": before["st"], "after": after["st"], "other": after["other"],
-                                         "same_frame": after["tracked"] == before["tracked"] and after["labels"] == before["labels"]
-                                         and after["columns"] == before["columns"] and before["other"] == [7 * i + 3 for i in range(n)],
-                                         "log": [[s, list(ix)] for s, ix in LOG if ix]})
+                    after = self.snapshot()
+                    call = {"out": outcome, "before": before["st"], "after": after["st"], "other": after["other"],
+                            "tracked": after["tracked"], "labels": after["labels"], "columns": after["columns"],
+                            "cleanup_out": cout, "cleanup": clean, "cleanup_changed": before["st"] != list(sc["assign"]),
+                            "log": [[s, list(ix)] for s, ix in LOG if ix]}
+                    if idx == "event":
+                        call["event_index"] = [int(i) for i in event.index]
+                    if case.get("second"):
+                        call["st2"] = after["st2"]
+                    rec["calls"].append(call)
+                if case.get("second"):                              # the other machine moves its own column only
+                    b2 = self.snapshot()
+                    try:
+                        self.machine2.transition(event.index, event.time)
+                        o2 = "ok"
+                    except Exception as e:  # noqa: BLE001
+                        o2 = "err:" + type(e).__name__
+                    a2 = self.snapshot()
+                    rec["second"] = {"out": o2, "st2": a2["st2"], "st_same": a2["st"] == b2["st"], "other": a2["other"]}
+                    self.population_view.update(pd.Series(["c17x"] * n, index=full, name="st2"))
                 res.append(rec)
             out["steps"].append(res)
 
+    class PState2(State):
+        pass
+
+    setattr(Probe, PHASES[case.get("phase", "time_step")], lambda self, event: self.act(event))
+
     SimulationContext._clear_context_cache()
-    probe = Probe()
     try:
+        probe = Probe()
         sim = SimulationContext(components=[probe],
                                 configuration={"population": {"population_size": n},
                                                "randomness": {"random_seed": case["seed"], "map_size": case.get("map_size", 1009)}},
@@ -318,11 +510,13 @@ class C17(Prop):
     n_quick = 180
     n_thorough = 2500
     workers = 6
-    case_timeout = 60
+    case_timeout = 300           # >= 1000 x the normal case time: the box may be heavily oversubscribed
     rule = ("a case is one simulation with one random machine (2-5 probe states, transient chains, self flags, random transition graph, "
             "per-simulant sixteenths incl. 0 and 1, triggered transitions driven through set_active/set_inactive) and 1-2 time steps of "
             "1-3 scenes; a scene fixes active sets and a current-state assignment and makes 3-8 Machine.transition calls from that same "
-            "assignment (a subset, the same permuted, singletons, overlapping subsets, everybody); 20 % of the cases are the exact "
+            "assignment (a subset, the same permuted, singletons, overlapping subsets, everybody, event.index), half of them with untracked "
+            "simulants; probability functions return every container / dtype / row order, machines are built through every API form, in any "
+            "step phase, optionally next to a second machine; Machine.cleanup observed before every call; 20 % of the cases are the exact "
             "row-level stream instead: a dyadic weight matrix and draws on / next to every bin edge and at 0.0 handed directly to the real "
             "_normalize_probabilities + _choice (whole matrix and row by row); distinct by case hash; non-trivial = some accepted call "
             "moved one simulant and left another where it was (rows: two different decisions)")
@@ -457,12 +651,13 @@ class C17(Prop):
         n = rng.choice([1, 2, 3, 4, 5, 6, 8, 10] + ([16, 25] if big else []))
         ns = rng.randint(2, 5)
         chain = ns >= 3 and rng.random() < 0.25      # a chain of transient states that is really walked
+        ring = not chain and rng.random() < 0.12      # s0 -> s1 -> … -> s0, all (nearly) certain, nobody transient: a second move would show
         states = []
         for k in range(ns):
-            tr = 0 if k == 0 else int(rng.random() < 0.35)
+            tr = 0 if k == 0 or ring else int(rng.random() < 0.35)
             if chain:
                 tr = int(0 < k < ns - 1 or (k == ns - 1 and rng.random() < 0.3))
-            states.append([("t" if tr else "s") + str(k), int(rng.random() < (0.25 if chain and tr else 0.5)), tr])
+            states.append([("t" if tr else "s") + str(k), int(rng.random() < (0.25 if (chain and tr) or ring else 0.5)), tr])
         if not chain and rng.random() < 0.5:      # shuffle so that transient states also come first in Machine.states
             rng.shuffle(states)
             if all(s[2] for s in states):
@@ -477,16 +672,17 @@ class C17(Prop):
             kmax = len(others)
             k = rng.choice([0, 1, 1, 2, 2, 3, 4])
             k = min(k, kmax)
-            if chain and a < ns - 1:
+            if (chain and a < ns - 1) or ring:
                 k = max(k, 1)
             if k == 0:
                 continue
             outs = rng.sample(others, k)
-            if chain and a < ns - 1 and a + 1 not in outs:
-                outs[0] = a + 1
+            nxt = (a + 1) % ns if ring else a + 1
+            if ((chain and a < ns - 1) or ring) and nxt not in outs:
+                outs[0] = nxt
             rows = self._gen_rowset(rng, k, n, bool(states[a][1]), bad_rate)
-            if chain and a < ns - 1:                 # most simulants take the next link with high probability
-                c = outs.index(a + 1)
+            if (chain and a < ns - 1) or ring:       # most simulants take the next link with high probability
+                c = outs.index(nxt)
                 for s_ in range(n):
                     if rng.random() < 0.6 and rows[s_].count(WD) == 0:
                         rows[s_] = [0] * k
@@ -494,8 +690,28 @@ class C17(Prop):
                         if rows[s_][c] == 12 and k > 1:
                             rows[s_][(c + 1) % k] = 4
             for c, b in enumerate(outs):
-                trig = rng.choice([NOT] * (14 if chain else 6) + [INACTIVE, INACTIVE, ACTIVE, ACTIVE])
+                trig = rng.choice([NOT] * (14 if chain or ring else 6) + [INACTIVE, INACTIVE, ACTIVE, ACTIVE])
                 trans.append([a, b, trig, [rows[s][c] for s in range(n)]])
+        # what each probability function returns: every container / dtype / row order the code accepts (never normalised here)
+        order_ok, int_ok = finding_status(SIG_ORDER) is not None, finding_status(SIG_INT) is not None
+        variety = rng.random() < 0.75
+        if finding_status(SIG_ORDER) == "open":
+            order_ok = rng.random() < 0.12                # an open finding class stays a small share of the cases
+        if finding_status(SIG_INT) == "open":
+            int_ok = rng.random() < 0.3
+        for a in range(ns):
+            mine = [t for t in trans if t[0] == a]
+            for t in mine:
+                kinds = ["series"] * 2 + list(SAFE_KINDS) if variety else ["series"]
+                if variety and (t[2] != NOT or order_ok):
+                    kinds += list(PERM_KINDS) * (2 if t[2] != NOT else 1)
+                if variety and all(v in (0, WD) for v in t[3]):
+                    kinds += ["series_int"] * 3
+                if all(v == WD for v in t[3]) and rng.random() < 0.5:
+                    kinds = ["default"]
+                t.append(rng.choice(kinds))
+            if mine and not int_ok and all(t[2] == NOT and t[4] == "series_int" for t in mine):
+                mine[0][4] = "series"          # an all-integer, non-triggered set is finding class SIG_INT
         triggered = [tid for tid, t in enumerate(trans) if t[2] != NOT]
         plain = [tid for tid, t in enumerate(trans) if t[2] == NOT]
         steps = []
@@ -532,9 +748,23 @@ class C17(Prop):
                     calls.append(list(range(n)))
                 if rng.random() < 0.1:
                     calls.append([])
-                scenes.append({"trig": trig, "assign": assign, "calls": calls})
+                if ring and list(range(n)) not in calls:
+                    calls.insert(0, list(range(n)))
+                sc = {"trig": trig, "assign": assign, "calls": calls}
+                if rng.random() < 0.5:             # untracked simulants, inside and outside the transitioned indexes
+                    sc["untracked"] = sorted(rng.sample(range(n), rng.randint(1, max(1, n // 2))))
+                    if not any(set(sc["untracked"]) & set(c) for c in calls):
+                        calls.append(sorted(set(calls[0]) | set(sc["untracked"])))
+                if rng.random() < 0.5:             # the index of the emitted event itself (every simulant, tracked or not)
+                    calls.insert(rng.randrange(len(calls) + 1), "event")
+                scenes.append(sc)
             steps.append(scenes)
-        return {"n": n, "seed": rng.randint(0, 10 ** 6), "states": states, "trans": trans, "steps": steps}
+        return {"n": n, "seed": rng.randint(0, 10 ** 6), "states": states, "trans": trans, "steps": steps,
+                "build": {"machine": rng.choice(["ctor", "ctor_tuple", "add_states", "add_states_twice"]),
+                          "self": rng.choice(["ctor", "method"]),
+                          "attach": rng.choice(["add_transition", "append", "extend"])},
+                "phase": rng.choice(["time_step"] * 3 + ["time_step__prepare", "time_step__cleanup", "collect_metrics"]),
+                "second": rng.random() < 0.25, "callables": rng.random() < 0.4, "rangeindex": rng.random() < 0.3}
 
     def boundary(self):
         B = []
@@ -579,6 +809,51 @@ class C17(Prop):
         B.append({"n": 2, "seed": 9, "states": [["a", 0, 0], ["t1", 0, 1], ["t2", 0, 1], ["b", 0, 0]],
                   "trans": [[0, 1, NOT, [16, 0]], [0, 3, NOT, [0, 16]], [1, 2, NOT, [16, 16]], [2, 1, NOT, [16, 16]]],
                   "steps": [[{"trig": [], "assign": [0, 0], "calls": [[1], [0, 1]]}]]})
+        # untracked simulants inside the index (1 has weights that cannot be normalised, 2 a certain move): not shown to the machine
+        B.append({"n": 4, "seed": 10, "states": [["a", 0, 0], ["b", 0, 0]],
+                  "trans": [[0, 1, NOT, [16, 0, 16, 8]], [1, 0, NOT, [16] * 4]],
+                  "steps": [[{"trig": [], "assign": [0, 0, 0, 1], "untracked": [1, 2], "calls": [[0, 1, 2, 3], "event", [1], [2, 1], [3, 0], []]},
+                             {"trig": [], "assign": [0, 0, 0, 1], "untracked": [0, 1, 2, 3], "calls": ["event", [2]]},
+                             {"trig": [], "assign": [0, 0, 0, 1], "calls": ["event", [2], [1]]}]],
+                  "second": True})
+        # every construction form; self transitions granted through State.allow_self_transitions(); every lifecycle phase
+        for q, (mk, att, ph) in enumerate([("ctor", "add_transition", "time_step"), ("ctor_tuple", "append", "time_step__prepare"),
+                                           ("add_states", "extend", "time_step__cleanup"), ("add_states_twice", "append", "collect_metrics")]):
+            B.append({"n": 5, "seed": 11 + q, "states": [["a", 1, 0], ["t", 1, 1], ["b", 0, 0]],
+                      "trans": [[0, 1, NOT, [4, 8, 0, 16, 2]], [0, 2, ACTIVE, [4, 8, 0, 0, 2]], [1, 2, NOT, [8, 8, 8, 8, 8]], [2, 0, NOT, [16] * 5, "default"]],
+                      "steps": [[{"trig": [[1, "on", [0, 1, 4]]], "assign": [0, 0, 0, 0, 2], "calls": [[4, 3, 2, 1, 0], "event", [2], [0, 1]]},
+                                 {"trig": [], "assign": [1, 1, 1, 1, 1], "calls": ["event", [3, 1]]}]],
+                      "build": {"machine": mk, "self": "method" if q % 2 == 0 else "ctor", "attach": att}, "phase": ph,
+                      "second": q == 1, "callables": True, "rangeindex": q >= 2})
+        # what a probability function may return: list, tuple, ndarray, named Series, Series cut out of a DataFrame, integer dtype next
+        # to a float column, the default function; on triggered transitions also correctly labelled Series in another row order
+        kinds = ["list", "tuple", "ndarray", "series_named", "framecol", "series"]
+        for q in range(2):
+            B.append({"n": 6, "seed": 15 + q, "states": [["a", 0, 0], ["b", 0, 0], ["c", 0, 0], ["d", 1, 0]],
+                      "trans": [[0, 1, NOT, [16, 0, 16, 0, 8, 4], kinds[3 * q]], [0, 2, NOT, [0, 16, 0, 16, 8, 4], kinds[3 * q + 1]],
+                                [0, 3, NOT, [0, 0, 0, 0, 0, 8], kinds[3 * q + 2]],
+                                [1, 0, NOT, [16, 16, 16, 16, 16, 16], "series_int"], [1, 2, ACTIVE, [0, 0, 0, 0, 0, 0], "series_int"],
+                                [3, 0, INACTIVE, [16, 0, 16, 0, 8, 8], "series_rev"], [3, 1, ACTIVE, [0, 16, 0, 16, 8, 0], "series_sorted"],
+                                [2, 3, NOT, [16] * 6, "default"]],
+                      "steps": [[{"trig": [[5, "on", [0, 1, 2, 4]], [6, "on", [5, 3, 1, 4]]], "assign": [0, 0, 0, 0, 0, 0],
+                                  "calls": [[5, 3, 1, 4, 2, 0], [0, 1, 2, 3, 4, 5], [4], "event"]},
+                                 {"trig": [], "assign": [3, 3, 3, 3, 1, 2], "calls": [[5, 3, 1, 4, 2, 0], [2, 0, 1], "event", [3]]}]],
+                      "callables": q == 1})
+        # a machine whose states have no transition at all; a machine with a single state
+        B.append({"n": 3, "seed": 17, "states": [["a", 0, 0], ["b", 1, 1]], "trans": [],
+                  "steps": [[{"trig": [], "assign": [0, 1, 2], "calls": ["event", [1], []]}]], "build": {"machine": "add_states"}})
+        B.append({"n": 2, "seed": 18, "states": [["a", 1, 0]], "trans": [[0, 0, NOT, [8, 16]]],
+                  "steps": [[{"trig": [], "assign": [0, 0], "untracked": [0], "calls": ["event", [1], [0]]}]]})
+        # finding classes (only once recorded, see SIG_ORDER / SIG_INT)
+        if finding_status(SIG_ORDER) is not None:
+            for kind in PERM_KINDS:
+                B.append({"n": 4, "seed": 19, "states": [["a", 0, 0], ["b", 0, 0], ["c", 0, 0]],
+                          "trans": [[0, 1, NOT, [16, 16, 0, 0], kind], [0, 2, NOT, [0, 0, 16, 16], kind]],
+                          "steps": [[{"trig": [], "assign": [0, 0, 0, 0], "calls": [[3, 1, 0, 2], [0, 1, 2, 3], [0], [3, 2, 1, 0]]}]]})
+        if finding_status(SIG_INT) is not None:
+            B.append({"n": 3, "seed": 20, "states": [["a", 0, 0], ["b", 0, 0], ["c", 0, 0]],
+                      "trans": [[0, 1, NOT, [16, 0, 16], "series_int"], [0, 2, NOT, [0, 16, 0], "series_int"]],
+                      "steps": [[{"trig": [], "assign": [0, 0, 0], "calls": [[0, 1, 2], [1]]}]]})
         # exact row-level stream: the F9 edge (draw 0.0, leading zero weight) and draws exactly on every bin edge
         for so in (0, 1):
             B.append({"kind": "rows", "self": so, "rows": [[0, 16], [0, 16]], "draws": [0, 1]})
@@ -612,7 +887,10 @@ class C17(Prop):
                         nsc = dict(sc, calls=sc["calls"][:c] + sc["calls"][c + 1:])
                         yield dict(case, steps=steps[:k] + [sc_list[:j] + [nsc] + sc_list[j + 1:]] + steps[k + 1:])
                 for c, idx in enumerate(sc["calls"]):
-                    if len(idx) > 1:
+                    if idx == "event":
+                        nsc = dict(sc, calls=sc["calls"][:c] + [list(range(case["n"]))] + sc["calls"][c + 1:])
+                        yield dict(case, steps=steps[:k] + [sc_list[:j] + [nsc] + sc_list[j + 1:]] + steps[k + 1:])
+                    elif len(idx) > 1:
                         for d in range(len(idx)):
                             nsc = dict(sc, calls=sc["calls"][:c] + [idx[:d] + idx[d + 1:]] + sc["calls"][c + 1:])
                             yield dict(case, steps=steps[:k] + [sc_list[:j] + [nsc] + sc_list[j + 1:]] + steps[k + 1:])
@@ -630,8 +908,15 @@ class C17(Prop):
             for j, sc in enumerate(step):
                 yield k, j, sc, obs["steps"][k][j]
 
+    def _model_skipped(self, case):
+        """cases of an OPEN finding class are judged by the oracle only (the model describes the intended behaviour)"""
+        perm_sets, int_sets = risky_sets(case)
+        return bool((perm_sets and finding_status(SIG_ORDER) == "open") or (int_sets and finding_status(SIG_INT) == "open"))
+
     def model_lines(self, case, obs):
         if obs["error"]:
+            return []
+        if case.get("kind") != "rows" and self._model_skipped(case):
             return []
         if case.get("kind") == "rows":
             def line(rows, draws):
@@ -642,15 +927,20 @@ class C17(Prop):
         L = [f"sm new {WD} {DD} {case['n']}"]
         for nm, so, tr in case["states"]:
             L.append(f"sm state {so} {tr}")
-        for a, b, trig, ps in case["trans"]:
+        for t in case["trans"]:
+            a, b, trig, ps = t[:4]
             L.append(f"sm trans {a} {b} {0 if trig == NOT else 1} {','.join(map(str, ps))}")
         for k, j, sc, rec in self._walk(case, obs):
             for tid, onoff, sims in sc["trig"]:
                 L.append(f"sm active {case['trans'][tid][0]} {spec.pos[tid]} {onoff} {','.join(map(str, sims)) or '-'}")
+            unt = set(sc.get("untracked", []))
+            L.append("sm tracked " + ",".join("0" if i in unt else "1" for i in range(case["n"])))
             for s, dr in enumerate(rec["draws"]):
                 L.append(f"sm draws {s} {','.join(map(str, dr))}")
             for idx in sc["calls"]:
+                idx = as_list(case, idx)
                 L.append(f"sm tab {','.join(map(str, sc['assign']))}")
+                L.append(f"sm cleanup {','.join(map(str, idx)) or '-'}")
                 L.append(f"sm transition {','.join(map(str, idx)) or '-'}")
         return L
 
@@ -680,12 +970,19 @@ class C17(Prop):
                 r = next(it)
                 if (o == "ok") != (r == "ok"):
                     dis.append(f"step {k} scene {j} set_{'active' if onoff == 'on' else 'inactive'} on transition {tid}: impl {o}, model {r}")
+            if next(it) != "ok":
+                dis.append(f"step {k} scene {j}: model refused the tracked column")
             for _ in rec["draws"]:
                 if next(it) != "ok":
                     dis.append(f"step {k} scene {j}: model refused the draws")
             for idx, call in zip(sc["calls"], rec["calls"]):
+                idx = as_list(case, idx)
                 if next(it) != "ok":
                     dis.append(f"step {k} scene {j}: model refused the assignment")
+                r = next(it)                       # Machine.cleanup: the cleanup_effect calls
+                mc = [] if r in ("ok -", "ok") else [[int(c.split(":")[0]), [int(x) for x in c.split(":")[1].split(",")]] for c in r[3:].split(";")] if r.startswith("ok") else None
+                if (mc is None) != (call["cleanup_out"] != "ok") or (mc is not None and mc != call["cleanup"]):
+                    dis.append(f"step {k} scene {j} cleanup({idx}): impl {call['cleanup_out']} {call['cleanup']}, model {r[:80]}")
                 r = next(it)
                 t = r.split()
                 mo = t[0] == "ok"
@@ -707,6 +1004,8 @@ class C17(Prop):
                         dis.append(f"{where}: simulant {i} is in {sname(case, call['after'][i])}, model {sname(case, mst[i])}")
                 if moth != call["other"]:
                     dis.append(f"{where}: other column impl {call['other']}, model {moth}")
+                if len(t) > 5 and [bool(int(x)) for x in t[5].split(",")] != call["tracked"]:
+                    dis.append(f"{where}: tracked column impl {call['tracked']}, model {t[5]}")
                 ip = _paths(idx, call["log"])
                 for i, mp in zip(idx, mpaths):
                     if i in near or idx.count(i) > 1:
@@ -724,32 +1023,71 @@ class C17(Prop):
         spec = Spec(case)
         n = case["n"]
         F = []
+        perm_sets, int_sets = risky_sets(case)
 
-        def fail(sig, msg):
+        def fail0(sig, msg):
             F.append({"sig": sig, "msg": msg})
 
+        fail = fail0
         ran = {(k, j): rec for k, j, sc, rec in self._walk(case, obs)}
         for k, j, sc, active in spec.scenes():
             rec = ran.get((k, j))
             if rec is None:
-                fail("scene-not-run", f"step {k} scene {j} was never reached")
+                fail0("scene-not-run", f"step {k} scene {j} was never reached")
                 continue
             assign = sc["assign"]
+            unt = set(sc.get("untracked", []))
+            exp_tracked = [i not in unt for i in range(n)]          # from the configuration, not read back
             outcomes = {}      # label -> {(after, path)} over accepted calls
-            for idx, call in zip(sc["calls"], rec["calls"]):
-                where = f"step {k} scene {j} transition({idx}) from {[sname(case, a) for a in assign]}"
-                inside = [i for i in idx if i < n]
-                unknown = [i for i in idx if i >= n]
-                if call["before"] != assign:
-                    fail("harness-reset", f"{where}: state column before the call is {call['before']}")
+            for idx0, call in zip(sc["calls"], rec["calls"]):
+                idx = as_list(case, idx0)
+                where = f"step {k} scene {j} transition({idx0}) from {[sname(case, a) for a in assign]}" + (f" untracked {sorted(unt)}" if unt else "")
+                if idx0 == "event" and call.get("event_index") != idx:
+                    fail("harness-event-index", f"{where}: event.index is {call.get('event_index')}")
                     continue
+                # (the machine's view shows tracked simulants only: untracked members of the index are not transitioned)
+                inside = [i for i in idx if i < n and i not in unt]
+                hidden = [i for i in idx if i < n and i in unt]
+                unknown = [i for i in idx if i >= n]
+                # a finding class? (see SIG_ORDER / SIG_INT): every failure of such a call is reported under the finding's signature
+                cls = None
+                for i in inside:
+                    cl = spec.closure(active, assign[i], i)[0]
+                    if any(s_ in int_sets for s_ in cl):
+                        cls = SIG_INT
+                    elif cls is None and any(s_ in perm_sets for s_ in cl):
+                        cls = SIG_ORDER
+                if cls:
+                    fail = (lambda c: lambda sig, msg: F.append({"sig": c, "msg": f"[{sig}] {msg}"}))(cls)
+                else:
+                    fail = fail0
+                if call["cleanup_changed"] or call["before"] != assign:
+                    fail0("cleanup-changed-table" if call["cleanup_changed"] else "harness-reset",
+                          f"{where}: state column before the call is {call['before']}")
+                    continue
+                # Machine.cleanup: cleanup_effect exactly once per tracked simulant of the index, with its current state
+                if unknown:
+                    if call["cleanup_out"] == "ok":
+                        fail0("unknown-label-accepted", f"{where}: cleanup accepted labels {unknown}")
+                else:
+                    want = [[s_, [i for i in idx if i not in unt and assign[i] == s_]] for s_ in range(spec.ns)]
+                    want = [w for w in want if w[1]]
+                    if call["cleanup_out"] != "ok" or call["cleanup"] != want:
+                        fail0("cleanup-hook", f"{where}: cleanup_effect calls {call['cleanup_out']} {call['cleanup']}, expected {want}")
                 # frame: outsiders and every other column are untouched, whatever the outcome
-                if not call["same_frame"] or call["other"] != [7 * i + 3 for i in range(n)]:
-                    fail("other-column-changed", f"{where}: other columns / rows changed ({call['other']})")
+                if (call["other"] != [7 * i + 3 for i in range(n)] or call["tracked"] != exp_tracked or call["labels"] != list(range(n))
+                        or call["columns"] != sorted(["st", "other", "tracked"] + (["st2"] if case.get("second") else []))
+                        or (case.get("second") and call["st2"] != ["c17x"] * n)):
+                    fail0("other-column-changed", f"{where}: other columns / rows changed (other {call['other']}, tracked {call['tracked']}, "
+                                                  f"columns {call['columns']}, st2 {call.get('st2')})")
                 for i in range(n):
-                    if i not in inside and call["after"][i] != assign[i]:
-                        fail("outsider-changed", f"{where}: simulant {i} was not in the index but moved "
-                                                 f"{sname(case, assign[i])} -> {sname(case, call['after'][i])}")
+                    if i not in idx and call["after"][i] != assign[i]:
+                        fail0("outsider-changed", f"{where}: simulant {i} was not in the index but moved "
+                                                  f"{sname(case, assign[i])} -> {sname(case, call['after'][i])}")
+                for i in hidden:
+                    if call["after"][i] != assign[i] or any(i in ix for _, ix in call["log"]):
+                        fail0("untracked-transitioned", f"{where}: untracked simulant {i} moved {sname(case, assign[i])} -> "
+                                                        f"{sname(case, call['after'][i])} (entries {[s_ for s_, ix in call['log'] if i in ix]})")
                 # rejection
                 must = [(i, spec.bad_row(active, assign[i], i)) for i in inside if spec.bad_row(active, assign[i], i)]
                 may, cyc = list(must), False
@@ -759,7 +1097,7 @@ class C17(Prop):
                     may += [(i, spec.bad_row(active, s, i)) for s in cl if spec.bad_row(active, s, i)]
                 if unknown:
                     if call["out"] == "ok":
-                        fail("unknown-label-accepted", f"{where}: labels {unknown} are not simulants")
+                        fail0("unknown-label-accepted", f"{where}: labels {unknown} are not simulants")
                     continue
                 if call["out"] != "ok":
                     # a rejection (whatever the exception class) is legitimate only if some simulant of the index can meet
@@ -776,8 +1114,8 @@ class C17(Prop):
                     continue
                 paths = _paths(inside, call["log"])
                 for i in paths:
-                    if i not in inside:
-                        fail("outsider-changed", f"{where}: simulant {i} entered {paths[i]} but was not in the index")
+                    if i not in idx:
+                        fail0("outsider-changed", f"{where}: simulant {i} entered {paths[i]} but was not in the index")
                 for i in set(inside):
                     cur, new = assign[i], call["after"][i]
                     path = paths[i]
@@ -824,8 +1162,16 @@ class C17(Prop):
                             fail("log-table-mismatch", f"{where}: simulant {i} entered {[sname(case, s) for s in path]} but the table says {sname(case, new)}")
             for i, outs in outcomes.items():
                 if len(outs) > 1:
-                    fail("depends-on-company", f"step {k} scene {j}: simulant {i} (in {sname(case, assign[i])}) ends differently depending on the "
-                                               f"index it is transitioned with: {sorted((sname(case, a), [sname(case, s) for s in p]) for a, p in outs)}")
+                    cl = spec.closure(active, assign[i], i)[0]
+                    sig = SIG_ORDER if any(s_ in perm_sets for s_ in cl) else "depends-on-company"
+                    fail0(sig, f"step {k} scene {j}: simulant {i} (in {sname(case, assign[i])}) ends differently depending on the "
+                               f"index it is transitioned with: {sorted((sname(case, a), [sname(case, s) for s in p]) for a, p in outs)}")
+            if case.get("second"):
+                sec = rec.get("second") or {}
+                want2 = ["c17y" if t else "c17x" for t in exp_tracked]
+                if sec.get("out") != "ok" or sec.get("st2") != want2 or not sec.get("st_same") or sec.get("other") != [7 * i + 3 for i in range(n)]:
+                    fail0("second-machine", f"step {k} scene {j}: the second machine (c17x -(1)-> c17y on column st2, transitioned with event.index) "
+                                            f"gave {sec}, expected st2 {want2} and everything else untouched")
         return F
 
     def _oracle_rows(self, case, obs):
@@ -876,6 +1222,7 @@ class C17(Prop):
             return len(set(decs)) > 1 or (len(case["rows"]) == 1 and bool(decs))
         for k, j, sc, rec in self._walk(case, obs):
             for idx, call in zip(sc["calls"], rec["calls"]):
+                idx = as_list(case, idx)
                 if call["out"] == "ok":
                     moved = [i for i in idx if i < case["n"] and call["after"][i] != sc["assign"][i]]
                     stayed = [i for i in range(case["n"]) if call["after"][i] == sc["assign"][i]]
@@ -919,14 +1266,26 @@ class C17(Prop):
             T.add("machine:transient-state")
         if spec.transient[0]:
             T.add("machine:transient-declared-first")
-        if any(spec.transient[a] and spec.transient[b] for a, b, _, _ in case["trans"]):
+        if any(spec.transient[a] and spec.transient[b] for a, b, *_ in case["trans"]):
             T.add("machine:transient-chain")
-        if any(a == b for a, b, _, _ in case["trans"]):
+        if any(a == b for a, b, *_ in case["trans"]):
             T.add("machine:declared-loop-transition")
         if any(not spec.by_from[s] for s in range(spec.ns)):
             T.add("machine:state-without-transitions")
         for t in case["trans"]:
             T.add({NOT: "trans:plain", INACTIVE: "trans:start-inactive", ACTIVE: "trans:start-active"}[t[2]])
+            T.add("pfunc:" + tkind(t) + ("" if t[2] == NOT else "(triggered)"))
+        for key, val in sorted(case.get("build", {}).items()):
+            T.add(f"build:{key}={val}")
+        T.add("phase:" + case.get("phase", "time_step"))
+        if case.get("second"):
+            T.add("machine:second-machine-on-other-column")
+        if case.get("callables"):
+            T.add("pfunc:callable-objects/partials/methods")
+        if case.get("rangeindex"):
+            T.add("index:RangeIndex")
+        if self._model_skipped(case):
+            T.add("model-skipped:open-finding-class")
         ran = {(k, j): rec for k, j, sc, rec in self._walk(case, obs)}
         for k, j, sc, active in spec.scenes():
             rec = ran.get((k, j))
@@ -938,7 +1297,17 @@ class C17(Prop):
                 T.add("assign:state-outside-machine")
             if len(sc["calls"]) > 1:
                 T.add("scene:alone-vs-together")
+            unt = set(sc.get("untracked", []))
             for idx, call in zip(sc["calls"], rec["calls"]):
+                if idx == "event":
+                    T.add("index:event.index")
+                idx = as_list(case, idx)
+                if any(i in unt for i in idx):
+                    T.add("index:contains-untracked")
+                if any(i in unt and spec.bad_row(active, sc["assign"][i], i) for i in idx if i < case["n"]):
+                    T.add("index:untracked-with-unnormalisable-weights")
+                if call["cleanup"]:
+                    T.add("hook:cleanup_effect")
                 T.add("call:" + OUTCOME.get(call["out"], call["out"]))
                 T.add("index:" + ("empty" if not idx else "single" if len(idx) == 1 else "everybody" if sorted(idx) == list(range(case["n"])) else "subset"))
                 if idx != sorted(idx):
@@ -946,7 +1315,7 @@ class C17(Prop):
                 if len(set(idx)) < len(idx):
                     T.add("index:duplicate-label")
                 for i in idx:
-                    if i >= case["n"]:
+                    if i >= case["n"] or i in unt:
                         continue
                     s = sc["assign"][i]
                     b = spec.bad_row(active, s, i)
@@ -980,7 +1349,7 @@ class C17(Prop):
                             T.add("hop:ends-in-transient")
                         if new == s and p:
                             T.add("hop:returned-to-start")
-                if call["out"] == "err:ValueError" and not any(spec.bad_row(active, sc["assign"][i], i) for i in idx if i < case["n"]):
+                if call["out"] == "err:ValueError" and not any(spec.bad_row(active, sc["assign"][i], i) for i in idx if i < case["n"] and i not in unt):
                     T.add("call:rejected-inside-transient")
         if obs.get("_near"):
             T.add("compare:near-edge-skipped")
